@@ -59,7 +59,9 @@ class Scenario:
         if act:
             self.in_cb = True
             try:
-                self.call(act)
+                # a callback may change its mind: several stop/restart calls in one callback run, the last one counts
+                for a in (act[1:] if act[0] == "seq" else [act]):
+                    self.call(a)
             finally:
                 self.in_cb = False
         self.log.append(("fire_end", env.now))
@@ -258,7 +260,9 @@ def _strategy(tier, taus, delays):
         tau2 = kgen.weighted([(tau, 2), (same, 2)])
         op2 = kgen.weighted([(st.just(["stop"]), 2), (st.tuples(st.just("restart"), tau2).map(list), 5), (st.just(["nop"]), 4)])
         actor2 = st.lists(st.tuples(delay, op2).map(list), min_size=2, max_size=7 if big else 5)
-        cb2 = kgen.weighted([(st.none(), 4), (st.tuples(st.just("restart"), tau2).map(list), 3), (st.just(["stop"]), 1)])
+        one = kgen.weighted([(st.tuples(st.just("restart"), tau2).map(list), 3), (st.just(["stop"]), 1)])
+        cb2 = kgen.weighted([(st.none(), 4), (st.tuples(st.just("restart"), tau2).map(list), 3), (st.just(["stop"]), 1),
+                             (st.tuples(st.just("seq"), one, one).map(list), 1)])
         return st.fixed_dictionaries({
             "timeout": st.just(timeout),
             "auto": st.booleans(),
